@@ -182,5 +182,5 @@ TImpliedW(T) == ImpliedW(THasDel(T), T.stable, T.config, T.base, FALSE)
 ReadOps  == {"open", "checkout_version", "refresh"}
 WriteOps == {"append", "overwrite", "delete", "update", "merge_insert", "compact", "create_index",
              "optimize_indices", "add_column", "drop_column", "rename_column", "update_config",
-             "delete_config", "restore", "commit_append"}
+             "delete_config", "restore", "commit_append", "commit_detached"}
 =============================================================================
